@@ -25,6 +25,8 @@ ASSUMPTIONS = [
     "the advertised (degree,size) pairs are those in the shipped file names <method>_<degree>_<size>.npz",
     "requests are non-negative Python/NumPy integers",
 ]
+LEVEL_TEXT = "Exhaustive at run time: every integer degree 0..max and every integer size 0..max of the four methods goes through the real constructor (about 115 000 constructions per run) under a post-condition that resolves the request by an independent linear scan of the public tables and checks the file on disk; plus converter sweeps, rejections, narrow integer types, AtomGrid shells and presets x methods."
+TECHNIQUE = "runtime monitoring: post-condition on AngularGrid.__init__ (independent table scan + data directory), exhaustive enumeration of requests"
 METHODS = ["lebedev", "spherical", "maxdet", "ahrens_beylkin"]
 CHUNK = 250
 
